@@ -68,6 +68,13 @@ CHECKS = {
             "numpy slogdet/inv of the returned W with cond-scaled tolerances; orthogonality of Householder sequences for any vector "
             "length; constructor outputs finite and invertible.",
             "cond(W) > 1e8 (float64) / 1e3 (float32) inconclusive.", "DESIGN.md 3/C11"),
+    "C14": ("Hypothesis-generated operation histories on ActNorm/BatchNorm run in lock-step with a reference model of the "
+            "documented life-cycle; outputs, log-dets and state_dict compared after every step",
+            "Exploration: histories over train/eval/forward/inverse/save+load into a fresh instance/deepcopy, 2-D and 4-D batches, "
+            "drawn momentum/eps; initialise-exactly-once, zero-mean/unit-variance first batch, momentum recurrence, running "
+            "statistics in eval, inverse availability, flag persistence.",
+            "Reference model written from the docstrings; either variance convention accepted but it must stay fixed; no "
+            "optimiser steps generated.", "DESIGN.md 3/C14"),
     "C17": ("Hypothesis-generated boundary probes (on / 1,2,8 ulp inside / 1,2,8 ulp outside / far) at any batch position, for "
             "every domain-restricted transform and direction, float32 and float64; exception-type and finiteness oracle",
             "Exploration: one probe element placed relative to the domain edge (in the working dtype) among valid elements, for "
